@@ -20,6 +20,7 @@
   Core-only.
 -/
 import Gozod.Model.FormatSpec
+import Gozod.Model.FormatSpecV6
 namespace Gozod
 namespace Netip
 open Fmt
@@ -79,6 +80,79 @@ def cidrv4 (s : List Nat) : Bool :=
   match cutLastSlash s with
   | none => false
   | some (a, b) => parseAddrIs4 a && prefixBits 32 b
+
+/-! ### IPv6: `parseIPv6` (go1.26 net/netip/netip.go), for strings without a zone
+
+  validate.IPv6 = `ParseAddr(s)` succeeds ∧ `Is6()` ∧ `Zone() == ""`; validate.CIDRv6 = `ParsePrefix(s)` succeeds ∧ `Is6()` (ParsePrefix
+  refuses zones).  A '%' in the string is either an error ("zone must be a non-empty string", "missing IPv6 address") or a non-empty zone,
+  so both validators refuse every string with a '%'; `parseIPv6` below is the function on the strings without one.
+
+    leading "::"            ellipsis = 0, s = s[2:]; nothing more → the unspecified address
+    for i < 16:             hex digits (`scanHex`: at most four; a fifth is an error); none → error
+                            next is '.' → embedded IPv4: (ellipsis < 0 && i != 12) → error; i+4 > 16 → error;
+                                          parseIPv4Fields on the WHOLE rest of the string from the start of this field; i += 4; done
+                            i += 2; end of string → done
+                            next is not ':' → error; ':' is the last byte → error
+                            "::" → second ellipsis → error; ellipsis = i; end of string → done
+    trailing bytes → error; i < 16 without ellipsis → error; i == 16 with ellipsis → error -/
+
+/-- the inner loop over hex digits: `some (off, s[off:])`, or `none` for "each group must have 4 or less digits" -/
+def scanHex : (off : Nat) → List Nat → Option (Nat × List Nat)
+  | off, [] => some (off, [])
+  | off, c :: r => if isHex c then (if off > 3 then none else scanHex (off + 1) r) else some (off, c :: r)
+
+/-- the body of the outer loop after the hex digits of a field: `s` is the string from the start of the field, `off` the number
+    of hex digits, `rest = s[off:]`; `k` continues the loop (`fuel` iterations are left: i + 2·fuel = 16).
+    Result: `some (i, ellipsis, s)` at the loop's exit, `none` for an error. -/
+def afterField (k : Nat → Option Nat → List Nat → Option (Nat × Option Nat × List Nat)) (i : Nat) (ell : Option Nat)
+    (s : List Nat) (off : Nat) (rest : List Nat) : Option (Nat × Option Nat × List Nat) :=
+  if off = 0 then none                                                       -- "each colon-separated field must have at least one digit"
+  else match rest with
+    | [] => some (i + 2, ell, [])                                            -- "Stop at end of string."
+    | c :: rest' =>
+      if c = 46 then                                                         -- "If followed by dot, might be in trailing IPv4."
+        if ell = none ∧ i ≠ 12 then none
+        else if i + 4 > 16 then none
+        else if ipv4Fields 0 0 0 none s then some (i + 4, ell, []) else none
+      else if c ≠ 58 then none                                               -- "unexpected character, want colon"
+      else match rest' with
+        | [] => none                                                         -- "colon must be followed by more characters"
+        | c' :: rest'' =>
+          if c' = 58 then                                                    -- "Look for ellipsis."
+            if ell.isSome then none                                          -- "multiple :: in address"
+            else if rest''.isEmpty then some (i + 2, some (i + 2), [])       -- "can be at end"
+            else k (i + 2) (some (i + 2)) rest''
+          else k (i + 2) ell rest'
+
+/-- the outer loop `for i < 16` -/
+def loop6 : (fuel : Nat) → (i : Nat) → (ell : Option Nat) → (s : List Nat) → Option (Nat × Option Nat × List Nat)
+  | 0, i, ell, s => some (i, ell, s)
+  | fuel + 1, i, ell, s =>
+    match scanHex 0 s with
+    | none => none
+    | some (off, rest) => afterField (loop6 fuel) i ell s off rest
+
+/-- after the loop: "Must have used entire string", "address string too short", "the :: must expand to at least one field of zeros" -/
+def final6 : Option (Nat × Option Nat × List Nat) → Bool
+  | none => false
+  | some (i, ell, s) => s.isEmpty && (if i < 16 then ell.isSome else !ell.isSome)
+
+/-- `parseIPv6(s)` succeeds, for `s` without '%' -/
+def parseIPv6 (s : List Nat) : Bool :=
+  match s with
+  | c0 :: c1 :: s' =>
+    if c0 = 58 ∧ c1 = 58 then (if s'.isEmpty then true else final6 (loop6 8 0 (some 0) s'))   -- "Might have leading ellipsis"
+    else final6 (loop6 8 0 none s)
+  | _ => final6 (loop6 8 0 none s)
+
+/-- validate.IPv6: `netip.ParseAddr(s)` succeeds, the address `Is6()` and has no zone -/
+def ipv6 (s : List Nat) : Bool := addrKind s = 6 && !s.elem 37 && parseIPv6 s
+
+/-- validate.CIDRv6: `netip.ParsePrefix(s)` succeeds and the address is IPv6 -/
+def cidrv6 (s : List Nat) : Bool :=
+  match cutLastSlash s with
+  | none => false
+  | some (a, b) => ipv6 a && prefixBits 128 b
 
 end Netip
 end Gozod
